@@ -610,7 +610,9 @@ def compare_with_model(ctx, label, runs):
             if mfiles != snap["files"]:
                 diff = {n: (mfiles.get(n), snap["files"].get(n)) for n in set(mfiles) | set(snap["files"]) if mfiles.get(n) != snap["files"].get(n)}
                 problems.append(("directory", {n: v[0] for n, v in diff.items()}, {n: v[1] for n, v in diff.items()}))
-            if sorted(disk["nested"]) != snap["nested"]:
+            # (the model keeps the nested foreign files as a list: writing the same path twice lists it twice, the directory
+            # holds it once)
+            if sorted(set(disk["nested"])) != sorted(set(snap["nested"])):
                 problems.append(("nested", disk["nested"], snap["nested"]))
             if problems:
                 bad += 1
